@@ -153,4 +153,15 @@ CHECKS = {
         "note": TLCNOTE + "Model bound: 48 start geometries, op sequences <= 2 (quick) / 3 (thorough); histories up to 12 operations.",
         "technique": "TLA+ abstract tree transition function (TLC exhaustive invariants) + TLC-enumerated transitions replayed + TLC trace validation of operation histories",
     },
+    "C18": {
+        "text": "Equality.tla defines ExactEquals: Eq = structural identity of the abstract trees (-0 ~ +0), i.e. equality of the WKB "
+                "encodings, and EqIO = existence of bijections of members and holes, either direction of a line, any start vertex and "
+                "direction of a ring - and nothing else; TLC checks reflexivity, symmetry, transitivity, Eq => EqIO, 'reorderings are "
+                "EqIO-equal' and 'single differences are never equal' over a family with duplicate members x all pairs of variants, "
+                "emits every (base, variant) pair as a case, and validates the recorded results of the real ExactEquals (no option, "
+                "IgnoreOrder, both argument orders, reflexive calls, ToleranceXY) on those and on random pairs over all float classes.",
+        "note": TLCNOTE + "Closed LineStrings in the families are rings the library classifies consistently (known finding F17 is "
+                "replayed explicitly); ToleranceXY decided on integer vertices.",
+        "technique": "TLA+ definitional equality relations (TLC exhaustive equivalence laws) + TLC-enumerated pairs replayed + TLC trace validation",
+    },
 }
